@@ -19,6 +19,8 @@ pub struct Store;
 pub enum Op {
     /// payload class, size, compress flag (installation / archive manager)
     Write { class: u8, size: usize, compress: bool },
+    /// write the same bytes as earlier object #j again (same encoding key)
+    Rewrite(usize),
     Read(usize),
     ReadAll,
     Query(usize),
@@ -182,7 +184,7 @@ impl Scenario for Store {
             3 => 16,                                              // doubling
             _ => 0,                                               // i.i.d.
         };
-        let mut w = [34u32, 18, 6, 8, 4, if sys == "container" { 8 } else { 0 }, if sys == "container" { 5 } else { 0 }, 12];
+        let mut w = [34u32, 18, 6, 8, 4, if sys == "container" { 8 } else { 0 }, if sys == "container" { 5 } else { 0 }, 12, 7];
         for (i, wi) in w.iter_mut().enumerate() {
             if i != 0 && rng.chance(20, 100) {
                 *wi = 0;
@@ -240,7 +242,8 @@ impl Scenario for Store {
                 4 => Op::QueryAbsent,
                 5 => Op::Remove(rng.usize_below(nobj.max(1))),
                 6 => Op::Flush { bucket: if rng.chance(1, 2) { None } else { Some(rng.below(16) as u8) } },
-                _ => Op::Reopen,
+                7 => Op::Reopen,
+                _ => Op::Rewrite(rng.usize_below(nobj.max(1))),
             };
             ops.push(op);
         }
@@ -368,6 +371,7 @@ async fn run(case: &Case, ctx: &mut Ctx) -> Option<Violation> {
     for (i, op) in case.ops.iter().enumerate() {
         let name = match op {
             Op::Write { .. } => "write",
+            Op::Rewrite(_) => "rewrite",
             Op::Read(_) => "read",
             Op::ReadAll => "read_all",
             Op::Query(_) => "query",
@@ -378,8 +382,18 @@ async fn run(case: &Case, ctx: &mut Ctx) -> Option<Violation> {
         };
         ctx.obs(name.as_bytes());
         match op {
-            Op::Write { class, size, compress } => {
-                let data = make_payload(*class, *size, ((i as u64 + 1) << 24) | (*size as u64 & 0xFF_FFFF));
+            Op::Write { .. } | Op::Rewrite(_) => {
+                let (class, compress, data) = match op {
+                    Op::Write { class, size, compress } => (class, compress, make_payload(*class, *size, ((i as u64 + 1) << 24) | (*size as u64 & 0xFF_FFFF))),
+                    Op::Rewrite(j) if !objs.is_empty() => {
+                        let o = &objs[*j % objs.len()];
+                        (&o.class.clone(), &false, o.data.clone())
+                    }
+                    _ => (&0u8, &false, make_payload(0, 10, i as u64 + 1)),
+                };
+                let (class, compress) = (&*class, &*compress);
+                let size = &data.len();
+                let _ = size;
                 let eff_mode = match &sut {
                     Sut::Archive(_) => {
                         if *compress { mode } else { CompressionMode::None }
